@@ -333,6 +333,7 @@ def main():
     dr = impl_block(br, r"impl<R: Read>\s*Drop for BodyReader<'_, R>\s*\{", "impl Drop for BodyReader")
     L.append(lean_assoc("bodySkeleton", [
         ("from_request", skeleton(fn_body(br, "from_request"), BODY_PATTERNS)),
+        ("from_response", skeleton(fn_body(br, "from_response"), BODY_PATTERNS)),
         ("note", skeleton(fn_body(br, "note"), BODY_PATTERNS)),
         ("drain", skeleton(fn_body(br, "drain"), BODY_PATTERNS)),
         ("read", skeleton(fn_body(rd, "read"), BODY_PATTERNS)),
